@@ -64,7 +64,9 @@ class Eq:
 def gen_eq(rnd, wid, ams=True):
     def text():
         wid[0] += 1
-        return ('text', rnd.choice([' ', '']), 'tw%dz' % wid[0], rnd.choice([' ', '']))
+        # (a text part may itself contain an inline formula: that is no part of the scheme of the equation)
+        inl = rnd.choice([' $x$', ' \\(y_1\\) ', '$n$']) if rnd.random() < .2 else ''
+        return ('text', rnd.choice([' ', '']), 'tw%dz' % wid[0], rnd.choice([' ', '']), inl)
 
     def section():
         items = []
@@ -101,7 +103,7 @@ def model(rows, repls, opw):
             first_part = si > 0
             for it in sec:
                 if it[0] == 'text':
-                    toks.append(('tx', it[2]))
+                    toks.append(('tx', it[2] + ('@' if len(it) > 4 and it[4] else '')))
                     first_part = False
                     next_repl = True
                     continue
@@ -170,7 +172,7 @@ def render(rnd, rows, env, ams=True, dangling=False):
                     m = rnd.choice(['\\text', '\\mbox'] if ams else ['\\mbox'])
                     emit(m + '{' + it[1])
                     words[it[2]] = n[0]
-                    emit(it[2] + it[3] + '}')
+                    emit(it[2] + (it[4] if len(it) > 4 else '') + it[3] + '}')
     if dangling:
         # simple-equations mode only: a dangling row separator / alignment character after the last row
         emit(rnd.choice([' \\\\', '\\\\[1ex]', ' &', ' & \\quad', ' \\\\ ']))
@@ -321,7 +323,9 @@ class C11(core.Check):
                 cnt['simple_equations_judged'] = cnt.get('simple_equations_judged', 0) + 1
                 continue
             want_lines = [''.join(s for _, s in ln) for ln in lines]
-            got = [''.join(x.split()) for x in got_lines]
+            got = [re.sub(r'([B-GБ-Ж])-\1-\1', '@', ''.join(x.split())) for x in got_lines]
+            if any('@' in x for x in want_lines):
+                cnt['with_inline_maths_in_text_part'] = cnt.get('with_inline_maths_in_text_part', 0) + 1
             detail.update(want=want_lines, got=got_lines)
             if len(got_lines) != len(lines):
                 return dict(ok=False, nt=True, key='rows', cnt=cnt, obs=None, detail=detail)
@@ -374,7 +378,8 @@ class C11(core.Check):
 
     def quotas(self, tier):
         return {'ml_docs': 500, 'equations_judged': 5000, 'rows_judged': 10000, 'with_kept_punctuation': 2000,
-                'with_operator_word': 1500, 'simple_equations_judged': 1000, 'docs_with_redefined_operators': 500, 'docs_with_macro_text_used_twice': 300}
+                'with_operator_word': 1500, 'simple_equations_judged': 1000, 'docs_with_redefined_operators': 500, 'docs_with_macro_text_used_twice': 300,
+                'with_inline_maths_in_text_part': 500}
 
 
 CHECK = C11
